@@ -168,7 +168,17 @@ def run(ctx):
                     kind.add("test-and-set")
         if kind and b.argc >= 2 and b.local_ty(0) in ("bool", "()"):
             accessors[b.defp] = kind
-    # an accessor that only wraps another accessor is the same operation
+    # K3b a recorded salt stays recorded: nothing on the decode path may take entries out of the replay cache. (A flow that fails after
+    # another flow recorded the same salt would otherwise delete the other flow's record, and a later copy is accepted as new.)
+    for b in bodies:
+        for (blk, c, t) in b.calls():
+            if c.method in ("remove", "clear", "pop", "retain", "remove_expired") and ("LruCache" in c.self_s or "lru_time_cache" in c.target):
+                rp = op_place(t["args"][0]) if t["args"] else None
+                kty = b.local_ty(rp[0]) if rp is not None else ""
+                if "[u8;" in kty.split(",")[0] or "[u8;" in " ".join(a.get("s", "") for a in c.args[:1]):
+                    ctx.ob("K3", b.defp, f"recorded-salt-is-never-removed:{c.method}", loc(t["sp"]), False,
+                           f"`{c.name}` takes an entry out of the salt replay cache: a salt that was recorded for an accepted handshake can be forgotten before its lifetime "
+                           "ends (e.g. by a concurrent copy of the same handshake that fails), after which a replay of that handshake is accepted")
     ctx.floor("K3", "salt-cache accessor functions", 1, len(accessors))
     # users: the decode step that uses the cache. A decoder split into helper stages is judged as a whole: climb from the function that
     # calls an accessor to the outermost method of the same type that (transitively) contains it
@@ -182,12 +192,14 @@ def run(ctx):
     tops = set()
     for r in direct:
         cur = r
+        seen_up = {r}
         for _ in range(4):
             ty = prog.body(cur).impl_self_def
             ups = [u for u in callers.get(cur, ()) if prog.body(u) is not None and prog.body(u).impl_self_def == ty and ty is not None and u not in accessors and not prog.body(u).impl_trait]
-            if len(ups) != 1:
+            if len(ups) != 1 or ups[0] in seen_up:
                 break
             cur = ups[0]
+            seen_up.add(cur)
         tops.add(cur)
     users = []
     for r in sorted(tops | direct):
@@ -198,7 +210,8 @@ def run(ctx):
         if cs:
             users.append((fb_, cs))
     # a stage that is spliced into another user's flat view is judged there
-    users = [u for u in users if not any(w is not u and u[0].root in {prog.body(o).root for o in w[0].origin} and w[0].root != u[0].root for w in users)]
+    kept = [u for u in users if not any(w is not u and u[0].root in {prog.body(o).root for o in w[0].origin} and w[0].root != u[0].root for w in users)]
+    users = kept or sorted(users, key=lambda u: -u[0].n)[:1]      # mutually recursive stages contain each other: judge the larger view
     ctx.floor("K3", "accept paths using the salt cache", 1, len(users))
     for (b, cs) in users:
         combined = [x for x in cs if accessors[x[1].target] >= {"lookup", "insert"}]
